@@ -33,7 +33,12 @@ TInit ==
   /\ l = 1 /\ bad = FALSE
 
 \* what the implementation reported after a call covers the promise of the design
+\* the segment files that exist carry the names the design gives them: consecutive sequence
+\* numbers, and as index the one after the last entry / marker saved when the segment was cut
+NamesOK == E.names = [j \in 1..(Len(segs') - locks'.p) |-> [s |-> locks'.p + j - 1, i |-> segs'[locks'.p + j].idx]]
+
 PostOK == /\ E.err = ""
+          /\ NamesOK
           /\ E.nrec >= pproc' /\ E.nrec <= Len(recs')
           /\ E.dur >= ppow' /\ E.dur <= E.nrec
 
@@ -51,11 +56,21 @@ C4 == NothingInvented(recs, E.snap, E.res)
 C5 == E.res.err = "" => E.res2 = E.res
 C6 == E.valid.err # "" \/ \E p \in Allowed(recs, Im, pproc, PF) : SeqSet(E.valid.snaps) = ValidSnaps(OnDisk(recs, p))
 C7 == E.verify # "" \/ \E p \in Allowed(recs, Im, pproc, PF) : E.snap \in Markers(OnDisk(recs, p))
-ImageOK == C1 /\ C2 /\ C3 /\ C4 /\ C5 /\ C6 /\ C7
+\* a second life: the image was reopened, further entries were saved (no hard state), the log was
+\* closed and reopened again; what comes back then is what the first reopen returned (a prefix p)
+\* plus what the second life saved on top - nothing that lay behind the write position resurfaces
+LifeRecs == [j \in 1..Len(E.life.ents) |-> EntRec(E.life.ents[j])]
+C8 == E.life.on =>
+        /\ E.life.err = ""
+        /\ LET PT == {p \in Allowed(recs, Im, pproc, PF) :
+                         p >= segs[Len(segs)].first /\ E.res = ReadFromLoose(recs, segs, p, E.snap)}
+           IN PT = {} \/ E.life.res.err # "" \/ \E p \in PT :    \* (a loud failure is inside the statement)
+                 E.life.res = ReadFromLoose(Pre(recs, p) \o LifeRecs, segs, p + Len(LifeRecs), E.snap)
+ImageOK == C1 /\ C2 /\ C3 /\ C4 /\ C5 /\ C6 /\ C7 /\ C8
 \* which conjuncts failed, as a bit mask: 1 panic-or-count, 2 durable-prefix, 4 repairable,
-\* 8 invented, 16 second-reopen, 32 valid-snapshots, 64 verify
+\* 8 invented, 16 second-reopen, 32 valid-snapshots, 64 verify, 128 second-life
 Why == (IF C1 THEN 0 ELSE 1) + (IF C2 THEN 0 ELSE 2) + (IF C3 THEN 0 ELSE 4) + (IF C4 THEN 0 ELSE 8)
-       + (IF C5 THEN 0 ELSE 16) + (IF C6 THEN 0 ELSE 32) + (IF C7 THEN 0 ELSE 64)
+       + (IF C5 THEN 0 ELSE 16) + (IF C6 THEN 0 ELSE 32) + (IF C7 THEN 0 ELSE 64) + (IF C8 THEN 0 ELSE 128)
 
 Mismatch(exp) == /\ bad' = TRUE
                  /\ PrintT(<<"MISMATCH", l, exp>>)
